@@ -89,6 +89,12 @@ func genDagCase(t *rapid.T, cfg dagCfg) *DagCase {
 			c.Max = 1 + c.Max%2
 		}
 	}
+	if c.Mode == "serial" && chance(t, "serialextra", 35) {
+		c.SerialExtra = rapid.IntRange(2, n+2).Draw(t, "serialextralimit")
+		if chance(t, "limitfirst", 50) {
+			c.SerialExtra = -c.SerialExtra
+		}
+	}
 	retries := make([]int, n)
 	c.Outcomes = make([][]string, n)
 	for i := 0; i < n; i++ {
